@@ -76,14 +76,6 @@ theorem inv_genesis (cfg : Config) (w : World)
     simp only [coin, Denom.ibcDenom, Denom.isNative, List.isEmpty_cons, Bool.false_eq_true, if_false]
     exact isPrefixOf_append_self _ _
 
-theorem voucher_coin_prefix (H : Str → Str) (d : Denom) (h : d.trace ≠ []) :
-    ibcSlash.isPrefixOf (d.ibcDenom H) = true := by
-  cases ht : d.trace with
-  | nil => exact absurd ht h
-  | cons x xs =>
-    simp only [Denom.ibcDenom, Denom.isNative, ht, List.isEmpty_cons, Bool.false_eq_true, if_false]
-    exact isPrefixOf_append_self _ _
-
 /-- **IBC never changes the supply of a native token.**  In every step of every world (no lifecycle
     hypothesis needed), the total supply of every coin denomination that is not an `ibc/…` voucher is
     unchanged on every chain: ICS-20 mints and burns vouchers only. -/
